@@ -261,6 +261,8 @@ def run(cx):
     # "after which the sender reports nothing pending": every frame the receiver saw is acknowledged once
     from props.shared import ack_queue_discipline
     ack_queue_discipline(cx, "C02.w")
+    from props.shared import receiver_flag_addressing
+    receiver_flag_addressing(cx, "C02.x")
     # a Reliable packet is also "skipped" when the receiver turns it into a data-less packet because its
     # allocation counter drifted (what is charged must be what is released, at both ends), when the frame
     # window refuses the sender's resynchronisation after a fully lost window, or when an id comparison
